@@ -1882,7 +1882,9 @@ func checkCounterWrap(p *Program, r *Report) {
 					good = big.NewInt(c).Cmp(max) < 0
 				} else {
 					bw, _, bInt := intTypeInfo(stripConv(bound).Type(), 64)
-					good = bInt && bw < w
+					// a narrower source cannot reach the counter's maximum; neither can a length
+					// of data actually held (len(s) − 1, 2·len(s), …) in a signed 64-bit counter
+					good = (bInt && bw < w) || (signed && w == 64 && heldLenExpr(minusConst(bound), nil))
 				}
 				if !good {
 					why = fmt.Sprintf("the %d-bit counter is compared with <= against a bound that can be the largest value of its type: incrementing wraps to 0 and the loop never ends", w)
@@ -1913,5 +1915,19 @@ func stripConv(v ssa.Value) ssa.Value {
 		default:
 			return v
 		}
+	}
+}
+
+// minusConst strips `x − c` (c a constant) down to x.
+func minusConst(v ssa.Value) ssa.Value {
+	for {
+		bo, ok := stripConv(v).(*ssa.BinOp)
+		if !ok || bo.Op != token.SUB {
+			return v
+		}
+		if _, isC := constInt(bo.Y); !isC {
+			return v
+		}
+		v = bo.X
 	}
 }
